@@ -184,16 +184,58 @@ pub fn norm_loc(s: &str) -> String {
     out
 }
 
-static CLEANUPS: std::sync::Mutex<Vec<std::path::PathBuf>> = std::sync::Mutex::new(Vec::new());
+type Cleanup = Box<dyn FnOnce() + Send>;
+static CLEANUPS: std::sync::Mutex<Vec<Cleanup>> = std::sync::Mutex::new(Vec::new());
 
 /// Directory to remove when the process finishes (for fixtures held in statics).
 pub fn register_cleanup(p: std::path::PathBuf) {
-    CLEANUPS.lock().unwrap().push(p);
+    register_cleanup_fn(Box::new(move || {
+        let _ = std::fs::remove_dir_all(p);
+    }));
+}
+
+pub fn register_cleanup_fn(f: Cleanup) {
+    CLEANUPS.lock().unwrap().push(f);
 }
 
 pub fn run_cleanups() {
-    for p in CLEANUPS.lock().unwrap().drain(..) {
-        let _ = std::fs::remove_dir_all(p);
+    let v: Vec<Cleanup> = CLEANUPS.lock().unwrap().drain(..).collect();
+    for f in v.into_iter().rev() {
+        f();
+    }
+}
+
+/// A lazily created multi-thread tokio runtime that is shut down by `run_cleanups` (Miri reports
+/// threads that outlive main).
+pub struct LazyRt {
+    slot: std::sync::RwLock<Option<tokio::runtime::Runtime>>,
+    workers: usize,
+}
+
+impl LazyRt {
+    pub const fn new(workers: usize) -> LazyRt {
+        LazyRt { slot: std::sync::RwLock::new(None), workers }
+    }
+    pub fn with<R>(&'static self, f: impl FnOnce(&tokio::runtime::Runtime) -> R) -> R {
+        {
+            let g = self.slot.read().unwrap_or_else(|p| p.into_inner());
+            if let Some(rt) = g.as_ref() {
+                return f(rt);
+            }
+        }
+        {
+            let mut g = self.slot.write().unwrap_or_else(|p| p.into_inner());
+            if g.is_none() {
+                *g = Some(tokio::runtime::Builder::new_multi_thread().worker_threads(self.workers).max_blocking_threads(8).build().expect("tokio runtime"));
+                register_cleanup_fn(Box::new(move || {
+                    if let Some(rt) = self.slot.write().unwrap_or_else(|p| p.into_inner()).take() {
+                        drop(rt); // joins the worker threads
+                    }
+                }));
+            }
+        }
+        let g = self.slot.read().unwrap_or_else(|p| p.into_inner());
+        f(g.as_ref().expect("runtime present"))
     }
 }
 
